@@ -384,7 +384,12 @@ def gen_sound(tier, seed, env_text):
                C("list"), C("list", A("int")), C("list", Sx("s")), C("set"), C("set", A("int")), C("tuple"), C("tuple", A("int")),
                C("dict"), C("dict", P(Sx("a"), A("int"))), C("dict", P(A("int"), Sx("s"))), C("ddict"), C("ddict", P(Sx("a"), A("int"))),
                C("list", C("list")), C("list", C("dict", P(Sx("a"), A("int")))), absmodel.T("genobj"), absmodel.T("func", "function"),
-               absmodel.T("classobj", "mtfx.shapes.A"), C("dict", P(Sx("a"), C("list"))), C("tuple", C("list"), A("int"))]
+               absmodel.T("classobj", "mtfx.shapes.A"), C("dict", P(Sx("a"), C("list"))), C("tuple", C("list"), A("int")),
+               # members of one Python class with different MonkeyType types inside a set / as dict keys
+               C("set", C("tuple", A("int"), A("int")), C("tuple", Sx("x"), Sx("y"))),
+               C("set", absmodel.T("classobj", "mtfx.shapes.A"), absmodel.T("classobj", "mtfx.shapes.B")),
+               C("dict", P(C("tuple", A("int")), A("int")), P(C("tuple", Sx("k")), A("int"))),
+               C("ddict", P(C("tuple", A("int")), A("int")), P(C("tuple", Sx("k")), Sx("v")))]
     sm = curated
     pairs = list(itertools.combinations(sm, 2))
     add("2 calls x every pair of 30 small values, default chain and none (exhaustive pairs)",
